@@ -328,6 +328,36 @@ class Gen:
             body.append(S("var", name=acc, expr=("bin", "+", ("var", var), ("num", 1.0, "")), default=False, glob=False))
             self.loop_depth -= 1
             return [S("for", var=var, frm=("num", 1.0, ""), to=("num", float(rng.range(1, 3)), ""), through=True, body=body)]
+        if k < 9 and self.loop_depth < 1:
+            # @each / @while in a function body with @return at different positions of the loop body: the first @return
+            # reached ends the call, whatever iteration it is in; the iterations stay observable through the accumulator
+            # (and through @debug when diagnostics are allowed here)
+            self.loop_depth += 1
+            acc = self.pick_var(scope, "n", 0.2)
+            loop_body = []
+            if rng.chance(0.5) and self.allow_diag:
+                loop_body.append(S("debug", expr=("var", "PLACEHOLDER")))
+            ret_stmt = S("return", expr=self.expr(ret, scope, 1))
+            if rng.chance(0.6):
+                it = self.fresh("n")
+                loop_body = [S("debug", expr=("var", it)) if s.k == "debug" else s for s in loop_body]
+                cond = ("bin", rng.choice([">", "==", ">="]), ("var", it), ("num", float(rng.choice([1, 2, 3])), ""))
+                loop_body.append(S("if", clauses=[(cond, [ret_stmt])], els=None) if rng.chance(0.7) else ret_stmt)
+                loop_body.append(S("var", name=acc, expr=("bin", "+", ("var", it), ("num", 1.0, "")), default=False, glob=False))
+                items = [("num", float(v), "") for v in rng.sample([1, 2, 3, 4, 5], rng.range(2, 4))]
+                st = [S("each", vars=[it], expr=("list", items, rng.choice(["space", "comma"]), False), body=loop_body)]
+            else:
+                c = self.fresh("wctr")
+                loop_body = [S("debug", expr=("var", c)) if s.k == "debug" else s for s in loop_body]
+                cond = ("bin", rng.choice([">", "==", ">="]), ("var", c), ("num", float(rng.choice([0, 1, 2])), ""))
+                loop_body.append(S("if", clauses=[(cond, [ret_stmt])], els=None))
+                loop_body.append(S("var", name=acc, expr=("bin", "+", ("var", c), ("num", 1.0, "")), default=False, glob=False))
+                loop_body.append(S("var", name=c, expr=("bin", "+", ("var", c), ("num", 1.0, "")), default=False, glob=False))
+                st = [S("var", name=c, expr=("num", 0.0, ""), default=False, glob=False),
+                      S("while", cond=("bin", "<", ("var", c), ("num", float(rng.range(2, 4)), "")), body=loop_body)]
+            self.loop_depth -= 1
+            scope.add(acc.replace("_", "-"))
+            return st
         if self.allow_diag:
             return [S(rng.choice(["debug", "warn"]), expr=self.expr(rng.choice(["n", "s"]), scope, 1))]
         return []
